@@ -42,6 +42,8 @@ const (
 	findingPrimaryIsWitness = "C09-promoted-primary-stays-witness"
 	// backwards verification checks the hash link of headers only and then stores the light block it was handed first
 	findingBackwardsUnvalidated = "C09-backwards-stores-unvalidated-block"
+	// sequential verification keeps the target it got from a primary that is demoted to witness during the same call
+	findingSelfConfirmed = "C09-demoted-primary-confirms-own-header"
 )
 
 type apiCall struct {
@@ -404,6 +406,31 @@ func runEpisode(t *rapid.T, w *world, label string, hk *hook) epResult {
 			}
 		}
 	}
+	if strings.HasPrefix(pkind, "fork") && pkind != "fork-below-root" && rapid.IntRange(0, 2).Draw(t, "pwrongH") == 0 || pkind == "faulty" && rapid.IntRange(0, 3).Draw(t, "pwrongH") == 0 {
+		// the primary answers some requests with a light block of ANOTHER height (genuine or from its own view); nothing
+		// in the Provider interface forbids it and the bisection never looks at the height of a pivot it is handed.
+		// Aimed at the first bisection pivot and at the target's height in particular.
+		primary.raw = true
+		for i, k := 0, rapid.IntRange(1, 2).Draw(t, "pwrongH.n"); i < k; i++ {
+			x := rapid.Int64Range(1, L+1).Draw(t, "pwrongH.x")
+			if rapid.IntRange(0, 2).Draw(t, "pwrongH.atPivot") != 0 {
+				x = r + (tgt-r)*9/16
+			}
+			y := rapid.Int64Range(1, L).Draw(t, "pwrongH.y")
+			if rapid.IntRange(0, 2).Draw(t, "pwrongH.targetHeight") != 0 {
+				y = tgt
+			}
+			src := w.g[y]
+			if rapid.Bool().Draw(t, "pwrongH.own") || src == nil {
+				src = primary.blocks[y]
+			}
+			if x != y && x != r && x >= 1 && src != nil {
+				primary.blocks[x] = src
+				forkNotes = append(forkNotes, fmt.Sprintf("primary answers height %d with a block of height %d (genuine=%v)", x, y, w.g[y] != nil && hkey(src) == hkey(w.g[y])))
+				cls.add("primary:answers-with-another-height")
+			}
+		}
+	}
 	cls.add("primary:" + pkind)
 
 	var wkinds []string
@@ -656,6 +683,18 @@ func runEpisode(t *rapid.T, w *world, label string, hk *hook) epResult {
 			} else if hdr != nil {
 				tH = hdr.Height
 			}
+			if c.kind == "height" {
+				// a provider may answer with a block of another height; the client then verifies (and returns) THAT block
+				for _, rec := range recs {
+					if (rec.origin == "main" || rec.origin == "findprimary") && rec.height == c.height && rec.lb != nil {
+						if rec.lb.Height != c.height {
+							tH = rec.lb.Height
+							cls.add("target-request-answered-with-another-height")
+						}
+						break
+					}
+				}
+			}
 
 			// ---- oracle 1: store soundness
 			var fresh []*types.LightBlock
@@ -720,9 +759,19 @@ func runEpisode(t *rapid.T, w *world, label string, hk *hook) epResult {
 
 			// ---- verdicts of the witnesses in this call (for classes)
 			pHashes := map[string]bool{}
+			var ptimes []time.Time
+			reqH := c.height
+			if c.kind == "update" {
+				reqH = 0
+			} else if hdr != nil {
+				reqH = hdr.Height
+			}
 			for _, rec := range recs {
-				if rec.origin == "main" && rec.lb != nil && rec.lb.Height == tH {
+				// the target as supplied by the primary (or by the witness that replaced it): an answer to the request for
+				// the asked height (0 for Update), not whatever a provider under examination returned later
+				if (rec.origin == "main" || rec.origin == "findprimary") && rec.lb != nil && rec.lb.Height == tH && (rec.height == reqH || rec.height == tH) {
 					pHashes[hkey(rec.lb)] = true
+					ptimes = append(ptimes, rec.lb.Time)
 				}
 				if rec.lb != nil && !isGenuine(rec.lb) {
 					forgedServed = true
@@ -801,9 +850,18 @@ func runEpisode(t *rapid.T, w *world, label string, hk *hook) epResult {
 						b.Height, b.Hash(), verd, sig, desc)
 				}
 				if len(who) < 2 {
-					// the only witness that confirmed the header is the provider that supplied it as primary earlier in the
-					// same call (it was demoted to witness after a benign error on an intermediate height)
-					cls.add("observation:confirmed-only-by-its-own-source")
+					// the only provider that ever showed this header is the one that supplied it: it was the primary when the
+					// target was fetched, was demoted to witness later in the same call (benign error on an intermediate height,
+					// sequential mode) and then "confirmed" its own header. No OTHER provider returned the identical header - the
+					// cross-check the property demands did not take place (the promoted provider was never asked for the target).
+					if lib.IsKnown(findingSelfConfirmed) {
+						lib.ObservedKnown(findingSelfConfirmed)
+						lib.ExcludedByKnown(findingSelfConfirmed)
+						cls.add("known:confirmed-only-by-its-own-source")
+					} else {
+						t.Fatalf("WITNESS RULE: header %d/%X was stored as trusted although the only provider that returned it during the call is node%d, which supplied it as the primary and was a witness by the time of the cross-check; no other provider was asked for or returned that header (verdicts %v)\n%s",
+							b.Height, b.Hash(), firstKey(who), verd, desc)
+					}
 				}
 				if b.Height > lastBefore {
 					cls.add("stored:forward")
@@ -845,12 +903,6 @@ func runEpisode(t *rapid.T, w *world, label string, hk *hook) epResult {
 				// forward conflict: a witness that does not have the target height yet answered with its head block, and
 				// that head is NOT EARLIER in time than the primary's header although it is lower: block time grows with
 				// height, so the witness's chain (if it proves its head from the trusted block) refutes the primary's header
-				var ptimes []time.Time
-				for _, rec := range recs {
-					if rec.origin == "main" && rec.lb != nil && rec.lb.Height == tH {
-						ptimes = append(ptimes, rec.lb.Time)
-					}
-				}
 				for _, rec := range recs {
 					if rec.origin != "compare" || rec.height != 0 || rec.lb == nil || rec.lb.Height >= tH || rec.lb.Height <= s.Height || len(ptimes) == 0 {
 						continue
@@ -1142,6 +1194,11 @@ func runEpisode(t *rapid.T, w *world, label string, hk *hook) epResult {
 	}
 	cls.add(fmt.Sprintf("lifetimes:%d", nLives))
 
+	if ep.runaway > 0 {
+		// the client kept asking one provider for the same thing until the double stopped answering (seen with a primary
+		// that answers a bisection pivot with an unverifiable block of a height that does not shrink the interval)
+		cls.add("observation:client-loop-ended-only-by-the-provider-going-silent")
+	}
 	cls.add("mode:" + mode)
 	cls.add("tmpl:" + tmpl)
 	cls.add(fmt.Sprintf("witnesses:%d", nW))
@@ -1248,6 +1305,16 @@ func primaryAmongWitnesses(cl *light.Client) string {
 	return ""
 }
 
+func firstKey(m map[int]bool) int {
+	k := -1
+	for x := range m {
+		if k < 0 || x < k {
+			k = x
+		}
+	}
+	return k
+}
+
 func containsInt(l []int, x int) bool {
 	for _, y := range l {
 		if x == y {
@@ -1332,7 +1399,7 @@ func checkEvidence(t *rapid.T, ep *episode, w *world, rf *ref, cl *light.Client,
 			toWitness = true
 		}
 		// (i) not the receiver's own block
-		if own := recv.view(cb.Height); own != nil && own.SignedHeader != nil && own.Header != nil && hkey(own) == hkey(cb) && recv.static(cb.Height, cb.Height) {
+		if own := recv.view(cb.Height); own != nil && own.SignedHeader != nil && own.Header != nil && hkey(own) == hkey(cb) && recv.static(cb.Height, cb.Height) && !recv.raw {
 			if replaced && prim != nil && recv.id == prim.id {
 				// the target was supplied by a provider that was demoted to witness later in the same call; the client
 				// still attributes it to "the primary" and addresses the second evidence to the current primary
@@ -1363,7 +1430,7 @@ func checkEvidence(t *rapid.T, ep *episode, w *world, rf *ref, cl *light.Client,
 		}
 		// (iii)/(iv) common height
 		mine := recv.view(cb.Height)
-		if mine == nil || mine.SignedHeader == nil || mine.Header == nil || !recv.static(1, cb.Height) {
+		if mine == nil || mine.SignedHeader == nil || mine.Header == nil || !recv.static(1, cb.Height) || recv.raw || other.raw {
 			cls.add("evidence:receiver-lacks-height")
 			continue
 		}
@@ -1414,7 +1481,14 @@ func checkEvidence(t *rapid.T, ep *episode, w *world, rf *ref, cl *light.Client,
 			forwardSeen = true
 		}
 	}
-	if prim != nil && s != nil && !replaced && !forwardSeen {
+	anyRaw := false // a raw provider may answer with blocks of other heights / foreign validator sets: the examination of
+	// its chain can end anywhere, nothing is required about the second piece of evidence then
+	for _, rec := range recs {
+		if ep.nodes[rec.prov].raw {
+			anyRaw = true
+		}
+	}
+	if prim != nil && s != nil && !replaced && !forwardSeen && !anyRaw {
 		if pb := prim.view(tH); pb != nil && fromPrim[hkey(pb)] && prim.static(s.Height, tH) && rf.adjacentConsistent(prim.view, s, pb, now) {
 			got := false
 			for _, e := range evs {
